@@ -1,5 +1,6 @@
 import Driver.Util
 import Hv.Patch.Ops
+import Hv.Patch.Spec
 
 /-! Driver for domain C13: runs the Lean model of `msgpackpatch` / `PatchFields` on the op
     lines produced by `harness/c13.go` (all byte strings travel as hex on the line).
@@ -196,16 +197,27 @@ def step (cfg : Cfg) (mg : Magic) (_ : Unit) (line : String) : Unit × String :=
         let w := wf out
         let f1 := if w then "" else "\t#F:C13-unvalidated-op-value"
         let f2 := if nanMet cfg body cond then "\t#F:C13-nan-compares-equal" else ""
+        -- the Spec's document differs from what the model stored (unrepaired REMOVE_VAL: containers skipped)
+        let f3 :=
+          if ops.any (fun o => o.kind == .removeVal) then
+            (match parse body with
+             | .ok t =>
+               (match Spec.refOps t ops, parse out with
+                | .ok d, .ok g => if serialize d == serialize g then "" else "\t#F:C13-removeval-skips-containers"
+                | _, _ => "")
+             | .error _ => "")
+          else ""
         -- `apn`: NaN payload bits are platform-defined; both sides print NaN leaves canonically
         let shown := if verb == "apn" then canonNaN out.length 1 out else out
-        ((), s!"out {hexOrDash shown} wf={if w then 1 else 0}{f1}{f2}")
+        ((), s!"out {hexOrDash shown} wf={if w then 1 else 0}{f1}{f2}{f3}")
     | _, _, _ => ((), "bad-op")
   | _ => ((), "bad-op")
 
 def run (args : List String) : IO UInt32 := do
   let kv := parseArgs args
   let nan : NanRule := if arg kv "nanCompare" == "neverEqual" then .neverEqual else .equal
-  let cfg : Cfg := { validatesValues := arg kv "validatesValues" == "yes", nan := nan }
+  let cfg : Cfg := { validatesValues := arg kv "validatesValues" == "yes", nan := nan,
+                     rmvalCanon := arg kv "removeValCompare" == "canonical" }
   let mg : Magic := match unhex (arg kv "magic") with
     | some [a, b] => ⟨a, b⟩
     | _ => ⟨0, 0⟩
